@@ -284,6 +284,197 @@ def uncache_attribute_locals(tree):
                     break
 
 
+def inline_local_functions(tree):
+    """`def add(a, b): return tuple(x + y for x, y in zip(a, b))` (or `add = lambda a, b: ...`) defined inside a function and only
+    ever called directly there: every call `add(u, v)` is replaced by the returned expression with the parameters substituted, and
+    the definition is dropped.  Conditions: positional parameters only, the body is one `return <expr>`, the name is bound once, the
+    expression reads no local of the enclosing function (so it means the same wherever it is evaluated), and an argument that is not
+    a plain name / constant / attribute or subscript chain is used at most once in the expression."""
+    import copy as _copy
+    n_done = 0
+    for fn in [n for n in ast.walk(tree) if isinstance(n, (ast.FunctionDef, ast.AsyncFunctionDef))]:
+        cands = {}
+        for node in ast.walk(fn):
+            for field in ("body", "orelse", "finalbody"):
+                block = getattr(node, field, None)
+                if not (isinstance(block, list) and block and isinstance(block[0], ast.stmt)):
+                    continue
+                for st in block:
+                    g = None
+                    if isinstance(st, ast.FunctionDef) and st is not fn and not st.decorator_list:
+                        b_ = [x for x in st.body if not (isinstance(x, ast.Expr) and isinstance(x.value, ast.Constant))]
+                        if len(b_) == 1 and isinstance(b_[0], ast.Return) and b_[0].value is not None:
+                            g = (st.name, st.args, b_[0].value, block, st)
+                    elif isinstance(st, ast.Assign) and len(st.targets) == 1 and isinstance(st.targets[0], ast.Name) and isinstance(st.value, ast.Lambda):
+                        g = (st.targets[0].id, st.value.args, st.value.body, block, st)
+                    if g is None:
+                        continue
+                    a = g[1]
+                    if a.vararg or a.kwarg or a.kwonlyargs or a.posonlyargs or a.defaults:
+                        continue
+                    cands[g[0]] = g
+        if not cands:
+            continue
+        fa = fn.args
+        fn_locals = {x.arg for x in fa.posonlyargs + fa.args + fa.kwonlyargs}
+        for x in ast.walk(fn):
+            if isinstance(x, ast.Name) and isinstance(x.ctx, (ast.Store, ast.Del)):
+                fn_locals.add(x.id)
+        for name, (nm, args, expr, block, st) in list(cands.items()):
+            params = [x.arg for x in args.args]
+            own = set(params)
+            for x in ast.walk(expr):
+                if isinstance(x, ast.comprehension):
+                    own |= {t.id for t in ast.walk(x.target) if isinstance(t, ast.Name)}
+            free = {x.id for x in ast.walk(expr) if isinstance(x, ast.Name) and isinstance(x.ctx, ast.Load)} - own
+            if free & (fn_locals - {nm}) or nm in free:
+                continue
+            binds = [x for x in ast.walk(fn) if (isinstance(x, ast.Name) and x.id == nm and isinstance(x.ctx, (ast.Store, ast.Del)))
+                     or (isinstance(x, ast.FunctionDef) and x.name == nm and x is not fn)]
+            if len(binds) != 1:
+                continue
+            loads = [x for x in ast.walk(fn) if isinstance(x, ast.Name) and x.id == nm and isinstance(x.ctx, ast.Load)]
+            calls = [x for x in ast.walk(fn) if isinstance(x, ast.Call) and isinstance(x.func, ast.Name) and x.func.id == nm]
+            if not loads:
+                continue
+            if len(loads) != len(calls):
+                # handed on as a value (map(f, a, b), key=f, ...): a def with one returned expression is the same as a lambda
+                if isinstance(st, ast.FunctionDef):
+                    called = {id(c.func) for c in calls}
+                    lam_args = _copy.deepcopy(args)
+                    for a_ in lam_args.args:
+                        a_.annotation = None
+
+                    class _L(ast.NodeTransformer):
+                        def visit_Name(self, y):
+                            if y.id == nm and isinstance(y.ctx, ast.Load) and id(y) not in called:
+                                return ast.copy_location(ast.Lambda(args=_copy.deepcopy(lam_args), body=_copy.deepcopy(expr)), y)
+                            return y
+                    if not calls:
+                        if st in block:
+                            block.remove(st)
+                            if not block:
+                                block.append(ast.Pass())
+                        _L().visit(fn)
+                        ast.fix_missing_locations(fn)
+                        n_done += 1
+                continue
+            if any(len(c.args) != len(params) or c.keywords or any(isinstance(a_, ast.Starred) for a_ in c.args) for c in calls):
+                continue
+            uses = {p_: sum(1 for x in ast.walk(expr) if isinstance(x, ast.Name) and x.id == p_) for p_ in params}
+
+            def simple(e):
+                return all(isinstance(x, (ast.Name, ast.Constant, ast.Attribute, ast.Subscript, ast.expr_context, ast.Slice, ast.Tuple, ast.UnaryOp, ast.unaryop))
+                           for x in ast.walk(e))
+            if any(not simple(a_) and uses[p_] > 1 for c in calls for p_, a_ in zip(params, c.args)):
+                continue
+            # a comprehension variable of the expression must not capture a name of an argument
+            comp_vars = own - set(params)
+            if any(isinstance(x, ast.Name) and x.id in comp_vars for c in calls for a_ in c.args for x in ast.walk(a_)):
+                continue
+
+            class _Repl(ast.NodeTransformer):
+                def visit_Call(self, n):
+                    self.generic_visit(n)
+                    if isinstance(n.func, ast.Name) and n.func.id == nm and len(n.args) == len(params):
+                        m = dict(zip(params, n.args))
+
+                        class _P(ast.NodeTransformer):
+                            def visit_Name(self, y):
+                                if y.id in m and isinstance(y.ctx, ast.Load):
+                                    return ast.copy_location(_copy.deepcopy(m[y.id]), y)
+                                return y
+                        return ast.copy_location(_P().visit(_copy.deepcopy(expr)), n)
+                    return n
+            if st in block:
+                block.remove(st)
+                if not block:
+                    block.append(ast.Pass())
+            _Repl().visit(fn)
+            ast.fix_missing_locations(fn)
+            n_done += 1
+    return n_done
+
+
+def unfold_any_over_local_function(tree):
+    """`return any(g(v) for v in R)` / `if any(g(v) for v in R): <S ending in return / raise>` with a local multi-statement function
+    `def g(v): ...; return e` that is used nowhere else  ->  the loop `for v in R: <body of g>; if e: return True / S` (followed by
+    `return False` in the first form).  The locals of g get a suffix; g may read the enclosing function's names."""
+    import copy as _copy
+    n_done = 0
+    for fn in [n for n in ast.walk(tree) if isinstance(n, (ast.FunctionDef, ast.AsyncFunctionDef))]:
+        for node in ast.walk(fn):
+            for field in ("body", "orelse", "finalbody"):
+                block = getattr(node, field, None)
+                if not (isinstance(block, list) and block and isinstance(block[0], ast.stmt)):
+                    continue
+                k = 0
+                while k < len(block):
+                    st = block[k]
+                    k += 1
+                    call = None
+                    if isinstance(st, ast.Return) and isinstance(st.value, ast.Call):
+                        call, form = st.value, "return"
+                    elif isinstance(st, ast.If) and isinstance(st.test, ast.Call) and not st.orelse and st.body \
+                            and isinstance(st.body[-1], (ast.Return, ast.Raise)):
+                        call, form = st.test, "if"
+                    if call is None or not (isinstance(call.func, ast.Name) and call.func.id == "any" and len(call.args) == 1 and not call.keywords
+                                            and isinstance(call.args[0], (ast.GeneratorExp, ast.ListComp)) and len(call.args[0].generators) == 1
+                                            and not call.args[0].generators[0].ifs):
+                        continue
+                    gen = call.args[0]
+                    elt = gen.elt
+                    if not (isinstance(elt, ast.Call) and isinstance(elt.func, ast.Name) and not elt.keywords and len(elt.args) == 1
+                            and isinstance(gen.generators[0].target, ast.Name) and isinstance(elt.args[0], ast.Name)
+                            and elt.args[0].id == gen.generators[0].target.id):
+                        continue
+                    gname = elt.func.id
+                    defs = [(b, x) for n2 in ast.walk(fn) for f2 in ("body", "orelse", "finalbody")
+                            for b in [getattr(n2, f2, None)] if isinstance(b, list) for x in b if isinstance(x, ast.FunctionDef) and x.name == gname]
+                    if len(defs) != 1:
+                        continue
+                    dblock, g = defs[0]
+                    if g.decorator_list or len(g.args.args) != 1 or g.args.vararg or g.args.kwarg or g.args.kwonlyargs or g.args.defaults:
+                        continue
+                    uses = [x for x in ast.walk(fn) if isinstance(x, ast.Name) and x.id == gname and isinstance(x.ctx, ast.Load)]
+                    if len(uses) != 1:
+                        continue
+                    gbody = [x for x in g.body if not (isinstance(x, ast.Expr) and isinstance(x.value, ast.Constant))]
+                    if not gbody or not isinstance(gbody[-1], ast.Return) or gbody[-1].value is None \
+                            or any(isinstance(x, (ast.Return, ast.FunctionDef, ast.Lambda, ast.Yield, ast.Global, ast.Nonlocal)) for y in gbody[:-1] for x in ast.walk(y)):
+                        continue
+                    n_done += 1
+                    tag = "__%s%d" % (gname, n_done)
+                    param = g.args.args[0].arg
+                    loopvar = gen.generators[0].target.id
+                    glocals = {x.id for y in gbody for x in ast.walk(y) if isinstance(x, ast.Name) and isinstance(x.ctx, (ast.Store, ast.Del))}
+
+                    class _R(ast.NodeTransformer):
+                        def visit_Name(self, y):
+                            if y.id == param:
+                                return ast.copy_location(ast.Name(id=loopvar, ctx=y.ctx), y)
+                            if y.id in glocals:
+                                return ast.copy_location(ast.Name(id=y.id + tag, ctx=y.ctx), y)
+                            return y
+                    new_body = [_R().visit(_copy.deepcopy(x)) for x in gbody[:-1]]
+                    cond = _R().visit(_copy.deepcopy(gbody[-1].value))
+                    then = [ast.Return(value=ast.Constant(value=True))] if form == "return" else st.body
+                    new_body.append(ast.If(test=cond, body=then, orelse=[]))
+                    loop = ast.For(target=ast.Name(id=loopvar, ctx=ast.Store()), iter=gen.generators[0].iter, body=new_body, orelse=[])
+                    repl = [loop] + ([ast.Return(value=ast.Constant(value=False))] if form == "return" else [])
+                    for x in repl:
+                        ast.copy_location(x, st)
+                        ast.fix_missing_locations(x)
+                    idx = block.index(st)
+                    block[idx:idx + 1] = repl
+                    if g in dblock:
+                        dblock.remove(g)
+                        if not dblock:
+                            dblock.append(ast.Pass())
+                    k = idx + len(repl)
+    return n_done
+
+
 def unmove_static_aliases(tree):
     """`def _f(..): ...` at module level plus `name = staticmethod(_f)` in a class body (a method moved out of its class, the old name
     kept as an alias) is turned back into a static method `name` of that class; direct calls `_f(...)` become `Class.name(...)`."""
@@ -337,6 +528,8 @@ class ModuleInfo:
         except SyntaxError as e:
             raise AnalysisError("syntax error in %s: %s" % (path, e))
         unmove_static_aliases(self.tree)
+        inline_local_functions(self.tree)
+        unfold_any_over_local_function(self.tree)
         uncache_attribute_locals(self.tree)
         canonicalise(self.tree)
         self.star_imports = []     # module names (package-local or external)
